@@ -10,7 +10,8 @@ import glob, json, os, subprocess, sys, tempfile
 
 VERIF = os.path.dirname(os.path.dirname(os.path.abspath(__file__)))
 REPO = os.environ.get('VP_REPO', '/repo')
-TARGET = os.path.join(VERIF, 'build', 'replay-target')
+SCRATCH = os.path.realpath(REPO) != '/repo'          # bin/seed-matrix: the checks run on a scratch copy of the sources
+TARGET = os.path.join(VERIF, 'build', 'replay-target-scratch' if SCRATCH else 'replay-target')
 BIN = os.path.join(TARGET, 'debug', 'vp-replay')
 LIB_PROPS = ('C01', 'C04', 'C05', 'C06', 'C07', 'C08', 'C09', 'C10', 'C11', 'C12', 'C13', 'C19')
 _built = {}
@@ -23,6 +24,15 @@ def build() -> bool:
     d = os.path.join(VERIF, 'replay')
     env = dict(os.environ, CARGO_NET_OFFLINE='true')
     try:
+        if SCRATCH:
+            # same crate, with the path dependency pointing at the scratch copy
+            import shutil
+            d2 = os.path.join(VERIF, 'build', 'replay-crate-scratch')
+            shutil.rmtree(d2, ignore_errors=True)
+            shutil.copytree(d, d2, ignore=shutil.ignore_patterns('corpus', 'target'))
+            t = open(os.path.join(d2, 'Cargo.toml')).read().replace('/repo/crates/typstyle-core', os.path.join(os.path.realpath(REPO), 'crates', 'typstyle-core'))
+            open(os.path.join(d2, 'Cargo.toml'), 'w').write(t)
+            d = d2
         lock = os.path.join(REPO, 'Cargo.lock')
         if os.path.exists(lock) and not os.path.exists(os.path.join(d, 'Cargo.lock')):
             import shutil
@@ -37,9 +47,15 @@ def build() -> bool:
 
 
 def corpus():
+    """Hand-written edge cases, the repository's fixtures, and the generated systematic inputs (replay/gen_corpus.py: every
+    expression form in every syntactic context; deterministic, regenerated when missing)."""
     fx = sorted(glob.glob(os.path.join(REPO, 'tests', 'fixtures', '**', '*.typ'), recursive=True))
     own = sorted(glob.glob(os.path.join(VERIF, 'replay', 'corpus', '*.typ')))
-    return own + fx
+    gen_dir = os.path.join(VERIF, 'build', 'gen-corpus')
+    if not os.path.isdir(gen_dir) or not os.listdir(gen_dir):
+        subprocess.run([sys.executable, os.path.join(VERIF, 'replay', 'gen_corpus.py')], capture_output=True, timeout=300)
+    gen = sorted(glob.glob(os.path.join(gen_dir, '*.typ')))
+    return own + fx + gen
 
 
 def baseline_failures(pid):
@@ -74,8 +90,8 @@ def run_oracle(pid, files, widths=None, tabs=None, extra=()):
 
 def find_failing_input(pid, failure, rec) -> bool:
     """Run the property's oracle over the corpus on the real code; record the first input that fails and did not fail before."""
-    if os.environ.get('VERIF_NO_REPLAY') or os.path.realpath(REPO) != '/repo':
-        rec['replay_note'] = 'replay skipped (checks run on a scratch copy of the sources)'
+    if os.environ.get('VERIF_NO_REPLAY'):
+        rec['replay_note'] = 'replay skipped (VERIF_NO_REPLAY)'
         return False
     if pid in ('C14', 'C15', 'C16'):
         import cli_replay
